@@ -193,3 +193,245 @@ theorem appendTail_far {f : Forest} {p c : Nat} {t : HTree} {vp : Value} {Lp : L
         simp [join, Keep.resident, F.kid.handle, hkac]
 
 end XotModel
+
+namespace XotModel
+open HTree Spec
+
+theorem lastOf_append_cons {l : List HTree} {t k : HTree} {r : List HTree} :
+    Forest.lastOf (l ++ t :: (r ++ [k])) = Forest.lastOf ((l ++ r) ++ [k]) := by
+  unfold Forest.lastOf
+  have e1 : l ++ t :: (r ++ [k]) = (l ++ t :: r) ++ [k] := by simp
+  rw [e1, List.getLast?_concat, List.getLast?_concat]
+
+/-- The same-site geometry: the node is a child of `p` already (but not the last one). -/
+theorem appendTail_same {f : Forest} {p : Nat} {t : HTree} {vp : Value} {l r : List HTree}
+    (inv : f.Inv) (norm : f.Normal) (sp : SiteAt f p vp (l ++ t :: r)) (hnorm : t.value.isNormal = true)
+    (hsame : ¬ Forest.lastOf (l ++ t :: r) = some t.handle)
+    (hocc : Dest.occupiedBy f t.handle (.lastChildOf p) = false)
+    (hok : (appendTail (f.removeConsolidate (prevOf l t) (nextOf r t)).1 p t.handle).2 = .ok) :
+    (appendTail (f.removeConsolidate (prevOf l t) (nextOf r t)).1 p t.handle).1 =
+      specMove (Keep.resident t.handle) (.lastChildOf p) t.handle f := by
+  have nd := sp.nd
+  have hgc : f.get? t.handle = some t := sp.getKid
+  have hsite : Dest.site f (.lastChildOf p) = some p := by
+    simp [Dest.site, Forest.isLive_of_get sp.kids]
+  have hpar : f.parent? t.handle = some p := Forest.parent?_of_ctx sp.ctx
+  obtain ⟨ndL, _⟩ := sp.nodupKids
+  obtain ⟨tl, tr⟩ := tops_ne_of_nodup ndL
+  have hdrop : dropTop t.handle (l ++ t :: r) = l ++ r := dropTop_mid rfl tl tr
+  -- `t` is not the last child
+  have hr : r ≠ [] := by
+    intro e
+    subst e
+    apply hsame
+    unfold Forest.lastOf
+    rw [List.getLast?_concat]
+    simp [hnorm]
+  -- the specification, as one edit of `p`'s child list
+  have hspec : specMove (Keep.resident t.handle) (.lastChildOf p) t.handle f =
+      f.editAt (some p) (fun _ => if f.consolidation then mergeRuns (Keep.resident t.handle) ((l ++ r) ++ [t])
+        else (l ++ r) ++ [t]) := by
+    rw [specMove_unfold hocc hgc hsite, hpar]
+    simp only [Dest.insert]
+    rcases Bool.eq_false_or_eq_true f.consolidation with hc | hc
+    · have c1 : ((f.editAt (some p) (dropTop t.handle)).editAt (some p) (insertLast t)).consolidation = true := by
+        rw [Forest.editAt_consolidation, Forest.editAt_consolidation]; exact hc
+      have c2 : (((f.editAt (some p) (dropTop t.handle)).editAt (some p) (insertLast t)).editAt (some p)
+          (mergeRuns (Keep.resident t.handle))).consolidation = true := by
+        rw [Forest.editAt_consolidation]; exact c1
+      rw [mergeAt_on c1, mergeAt_on c2, Forest.editAt_editAt, Forest.editAt_editAt, Forest.editAt_editAt]
+      apply sp.congr
+      simp only [Function.comp, hc, if_true, insertLast]
+      rw [hdrop, mergeRuns_idem]
+    · have c1 : ((f.editAt (some p) (dropTop t.handle)).editAt (some p) (insertLast t)).consolidation = false := by
+        rw [Forest.editAt_consolidation, Forest.editAt_consolidation]; exact hc
+      rw [mergeAt_off c1, mergeAt_off c1, Forest.editAt_editAt]
+      apply sp.congr
+      simp only [Function.comp, hc, insertLast]
+      rw [hdrop]
+      rfl
+  rw [hspec]
+  have hold := old_stage inv norm sp
+  generalize f.removeConsolidate (prevOf l t) (nextOf r t) = res at hold hok ⊢
+  -- Flow 1 from a description of the forest after the old-site merge
+  have flow1 : ∀ (X : Forest) (l1 r1 : List HTree), SiteAt X p vp (l1 ++ t :: r1) →
+      X = f.editAt (some p) (fun _ => l1 ++ t :: r1) →
+      res.1 = X →
+      X.addConsolidate t.handle (X.lastChild p) none = (X, false) →
+      ((if f.consolidation then mergeRuns (Keep.resident t.handle) ((l ++ r) ++ [t]) else (l ++ r) ++ [t])
+        = (l1 ++ r1) ++ [t]) →
+      (appendTail res.1 p t.handle).1 =
+        f.editAt (some p) (fun _ => if f.consolidation then mergeRuns (Keep.resident t.handle) ((l ++ r) ++ [t])
+          else (l ++ r) ++ [t]) := by
+    intro X l1 r1 sX hX hres hr2 hlist
+    rw [hres] at hok ⊢
+    unfold appendTail at hok ⊢
+    rw [hr2] at hok ⊢
+    simp only [Bool.false_eq_true, if_false] at hok ⊢
+    have hr3 : (X.checkedAppend p t.handle).2 = true := by
+      cases h : (X.checkedAppend p t.handle).2 with
+      | true => rfl
+      | false => rw [h] at hok; simp at hok
+    rw [hr3]
+    simp only [if_true]
+    rw [Forest.checkedAppend_ok sX.nd sX.getKid hr3, Forest.parent?_of_ctx sX.ctx, hX,
+      Forest.editAt_editAt, Forest.editAt_editAt]
+    apply sp.congr
+    simp only [Function.comp, insertLast]
+    obtain ⟨ndL1, _⟩ := sX.nodupKids
+    obtain ⟨tl1, tr1⟩ := tops_ne_of_nodup ndL1
+    rw [dropTop_mid rfl tl1 tr1, hlist]
+  cases hold with
+  | merged l' a b r' x y hc el er hx hy hp hn ht =>
+    subst el er
+    have hleafo := sp.leaf inv.valid
+    have hstrict := (validTree_node (sp.valid (norm hc))).2.2.1 rfl
+    obtain ⟨hl, hkr, _⟩ := noAdj_append.1 hstrict
+    have hbr := noAdj_tail hkr
+    have hak : a.handle ≠ t.handle := tl a (List.mem_append_right _ List.mem_cons_self)
+    have sX : SiteAt (f.editAt (some p) (fun _ => l' ++ a.setValue (.text (x ++ y)) :: t :: r')) p vp
+        ((l' ++ [a.setValue (.text (x ++ y))]) ++ t :: r') := by
+      have := sp.edit (fun _ => l' ++ a.setValue (.text (x ++ y)) :: t :: r') (by
+        simp only [handlesList_append, handlesList_cons, setValue_handles, handlesList_nil, List.append_nil,
+          List.append_assoc]
+        refine (List.Sublist.refl _).append ((List.Sublist.refl _).append ((List.Sublist.refl _).append ?_))
+        exact List.sublist_append_right _ _)
+      simpa using this
+    refine flow1 _ (l' ++ [a.setValue (.text (x ++ y))]) r' sX (by simp) rfl ?_ ?_
+    · apply Forest.addConsolidate_not_text
+      rw [Forest.textOf_of_get sX.getKid]; exact ht
+    · rw [hc]
+      simp only [if_true]
+      have htn : ¬ t.value.isText = true := by
+        intro h
+        obtain ⟨z, hz⟩ := isText_iff_textData.1 h
+        rw [ht] at hz; cases hz
+      have hbrt : noAdjacentText (b :: (r' ++ [t])) = true := by
+        have : b :: (r' ++ [t]) = (b :: r') ++ [t] := rfl
+        rw [this]
+        apply noAdj_append.2
+        refine ⟨hbr, rfl, ?_⟩
+        intro a' b' _ hb' ⟨_, h2⟩
+        simp only [List.head?_cons, Option.some.injEq] at hb'
+        subst hb'
+        exact htn h2
+      have e1 : (l' ++ [a] ++ b :: r') ++ [t] = l' ++ a :: b :: (r' ++ [t]) := by simp
+      rw [e1, mergeRuns_seam _ hx hy hl hbrt]
+      simp [join, Keep.resident, hak]
+  | same hseam =>
+    have sX : SiteAt f p vp (l ++ t :: r) := sp
+    have hXid : f = f.editAt (some p) (fun _ => l ++ t :: r) := by
+      rw [sp.congr (g := fun _ => l ++ t :: r) (g' := id) rfl, Forest.editAt_id]
+    have hlast : f.lastChild p = Forest.lastOf (l ++ t :: r) := Forest.lastChild_of_get sp.kids
+    -- split `r` at its last element
+    obtain ⟨r'', ka, er⟩ : ∃ r'' ka, r = r'' ++ [ka] := by
+      cases hl : r.getLast? with
+      | none => exact absurd (List.getLast?_eq_none_iff.1 hl) hr
+      | some k => exact ⟨_, k, (List.getLast?_eq_some_iff.1 hl).choose_spec⟩
+    subst er
+    have hstrictL : f.consolidation = true → noAdjacentText ((l ++ r'') ++ [ka]) = true := by
+      intro hc
+      have hstrict := (validTree_node (sp.valid (norm hc))).2.2.1 rfl
+      obtain ⟨hl, hkr, _⟩ := noAdj_append.1 hstrict
+      have : (l ++ r'') ++ [ka] = l ++ (r'' ++ [ka]) := by simp
+      rw [this]
+      exact noAdj_append.2 ⟨hl, noAdj_tail hkr, hseam hc⟩
+    have flow1' : f.addConsolidate t.handle (f.lastChild p) none = (f, false) →
+        (f.consolidation = true → ¬ (ka.value.isText = true ∧ t.value.isText = true)) →
+        (appendTail (f, false).1 p t.handle).1 =
+          f.editAt (some p) (fun _ => if f.consolidation then
+            mergeRuns (Keep.resident t.handle) ((l ++ (r'' ++ [ka])) ++ [t]) else (l ++ (r'' ++ [ka])) ++ [t]) := by
+      intro hr2 hsm
+      refine flow1 f l (r'' ++ [ka]) sX hXid rfl hr2 ?_
+      rcases Bool.eq_false_or_eq_true f.consolidation with hc | hc
+      · rw [hc]
+        simp only [if_true]
+        apply mergeRuns_id
+        apply noAdj_append.2
+        refine ⟨by have := hstrictL hc; simpa using this, rfl, ?_⟩
+        intro a' b' ha' hb'
+        have : (l ++ (r'' ++ [ka])).getLast? = some ka := by
+          rw [← List.append_assoc, List.getLast?_concat]
+        rw [this] at ha'
+        cases ha'
+        simp only [List.head?_cons, Option.some.injEq] at hb'
+        subst hb'
+        exact hsm hc
+      · rw [hc]; rfl
+    rcases Bool.eq_false_or_eq_true f.consolidation with hc | hc
+    case inr =>
+      exact flow1' (Forest.addConsolidate_off hc _ _ _) (fun h => by rw [hc] at h; cases h)
+    cases htd : textData t with
+    | none =>
+      refine flow1' (Forest.addConsolidate_not_text ((Forest.textOf_of_get hgc).trans htd) _ _) ?_
+      intro _ ⟨_, h2⟩
+      obtain ⟨z, hz⟩ := isText_iff_textData.1 h2
+      rw [htd] at hz; cases hz
+    | some tc =>
+      have htt : t.value.isText = true := isText_iff_textData.2 ⟨tc, htd⟩
+      have hlo : Forest.lastOf (l ++ t :: (r'' ++ [ka])) = if ka.value.isNormal then some ka.handle else none := by
+        unfold Forest.lastOf
+        have e1 : l ++ t :: (r'' ++ [ka]) = (l ++ t :: r'') ++ [ka] := by simp
+        rw [e1, List.getLast?_concat]
+      have ska : SiteAt f p vp ((l ++ t :: r'') ++ ka :: []) := by
+        have e1 : (l ++ t :: r'') ++ ka :: [] = l ++ t :: (r'' ++ [ka]) := by simp
+        rw [e1]; exact sp
+      have hka_get : f.get? ka.handle = some ka := ska.getKid
+      by_cases hkn' : ¬ ka.value.isNormal = true
+      · have hkn := hkn'
+        refine flow1' (by
+          rw [hlast, hlo, if_neg hkn]
+          exact Forest.addConsolidate_none (fun a h => by cases h) (fun b h => by cases h)) ?_
+        intro _ ⟨h1, _⟩
+        exact hkn (isNormal_of_text h1)
+      have hkn : ka.value.isNormal = true := Classical.not_not.1 hkn'
+      rw [if_pos hkn] at hlo
+      cases hta : textData ka with
+      | none =>
+        refine flow1' (by
+          rw [hlast, hlo]
+          exact Forest.addConsolidate_none
+            (fun a h => by cases h; rw [Forest.textOf_of_get hka_get]; exact hta)
+            (fun b h => by cases h)) ?_
+        intro _ ⟨h1, _⟩
+        obtain ⟨z, hz⟩ := isText_iff_textData.1 h1
+        rw [hta] at hz; cases hz
+      | some ta =>
+        -- Flow 2
+        have hr2 : f.addConsolidate t.handle (f.lastChild p) none =
+            ((f.setValue ka.handle (.text (ta ++ tc))).spliceOut t.handle, true) := by
+          rw [hlast, hlo]
+          exact Forest.addConsolidate_prev hc ((Forest.textOf_of_get hgc).trans htd)
+            ((Forest.textOf_of_get hka_get).trans hta) _
+        have hleaf_t : t.kids = [] := leaf_of_text inv.valid hgc htt
+        have hkat : ka.handle ≠ t.handle := tr ka (by simp)
+        let S : List HTree → List HTree := replaceTop ka.handle (fun k => [k.setValue (.text (ta ++ tc))])
+        have hset : f.setValue ka.handle (.text (ta ++ tc)) = f.editAt (some p) S :=
+          Forest.setValue_of_ctx _ nd ska.ctx
+        obtain ⟨ndLk, _⟩ := ska.nodupKids
+        have hSL : S (l ++ t :: (r'' ++ [ka])) = l ++ t :: (r'' ++ [ka.setValue (.text (ta ++ tc))]) := by
+          have e1 : l ++ t :: (r'' ++ [ka]) = (l ++ t :: r'') ++ ka :: [] := by simp
+          simp only [S]
+          rw [e1, replaceTop_mid rfl (tops_ne_of_nodup ndLk).1]
+          simp
+        have sZ : SiteAt (f.editAt (some p) S) p vp (l ++ t :: (r'' ++ [ka.setValue (.text (ta ++ tc))])) := by
+          have := sp.edit S (by simp only [S]; rw [handlesList_setValTop]; exact List.Sublist.refl _)
+          rw [hSL] at this
+          exact this
+        unfold appendTail
+        simp only
+        rw [hr2]
+        simp only [if_true]
+        rw [hset, Forest.spliceOut_leaf sZ.nd sZ.getKid hleaf_t, Forest.parent?_of_ctx sZ.ctx,
+          Forest.editAt_editAt]
+        apply sp.congr
+        simp only [Function.comp, hc, if_true]
+        rw [hSL]
+        obtain ⟨ndLZ, _⟩ := sZ.nodupKids
+        obtain ⟨tlZ, trZ⟩ := tops_ne_of_nodup ndLZ
+        rw [dropTop_mid rfl tlZ trZ]
+        have e2 : (l ++ (r'' ++ [ka])) ++ [t] = (l ++ r'') ++ ka :: t :: [] := by simp
+        rw [e2, mergeRuns_seam _ (textData_some hta) (textData_some htd) (hstrictL hc) rfl]
+        simp [join, Keep.resident, hkat]
+
+end XotModel
